@@ -413,6 +413,14 @@ func checkC08(run *mon.Run, rng *mon.Rand, thorough bool) {
 				w.tc.L1.L1.NextBlock(mon.Pick(rr, []time.Duration{time.Second, 2 * time.Second, 5 * time.Second}))
 				w.tc.L2.L2.NextBlock(time.Second)
 				w.logf("advance blocks")
+				if rr.Chance(12) {
+					// one of the chains is exported and restarted from its own genesis; the bridge goes on
+					if rr.Bool() {
+						w.logf("L1 restarted from its exported genesis -> imported=%v", migrateL1(w.tc.L1))
+					} else {
+						w.logf("L2 restarted from its exported genesis -> imported=%v", migrateL2(w.tc.L2))
+					}
+				}
 			default:
 				w.opClaim()
 			}
